@@ -10,12 +10,13 @@ run() { # name patch checks
   d=$(mktemp -d /tmp/ms.XXXXXX); cp -r /repo/. $d/
   if ! (cd $d && grep -v '^# checks:' "$2" | git apply - 2>/dev/null); then echo "SKIP $1 (patch does not apply)"; rm -rf $d; return; fi
   for c in $3; do
-    if [ "$c" = NONE ]; then want=0; cs="C08"; else want=1; cs=$c; fi
+    if [ "$c" = NONE ]; then want=0; cs="C08"; else want=${WANT:-1}; cs=$c; fi
     out=$(VERIF_REPO=$d timeout 3600 ./check $cs 2>&1); rc=$?
     if [ $rc -eq $want ]; then echo "ok   $1 $cs rc=$rc"; else echo "FAIL $1 $cs rc=$rc (want $want)"; fail=1; fi
   done
   rm -rf $d replays
 }
 for p in tools/mutants/*.diff; do n=$(basename $p .diff); cks=$(head -1 $p | sed 's/# checks: //'); run "$n" "$PWD/$p" "$cks"; done
-for d in seeded/*/; do n=$(basename $d); id=${n:0:3}; run "seeded-$n" "$PWD/$d/patch.diff" "$id"; done
+# seeded/<n>/expect_rc (optional): the exit code this seed is known to give (2 = recorded as undecided, see DESIGN.md 12.5)
+for d in seeded/*/; do n=$(basename $d); id=${n:0:3}; WANT=$(cat $d/expect_rc 2>/dev/null || echo 1) run "seeded-$n" "$PWD/$d/patch.diff" "$id"; done
 exit $fail
